@@ -552,6 +552,13 @@ func rejectKey(err error, toks []token) string {
 		if m := reGotWant.FindStringSubmatch(e.Msg); m != nil {
 			return pre + "got " + m[1]
 		}
+		for _, t := range toks {
+			if t.line == e.Pos.Line && t.col == e.Pos.Col {
+				if cl := tokClass(t.text); cl == "STRING" || cl == "NUMBER" {
+					return pre + "error at " + cl + " token"
+				}
+			}
+		}
 	}
 	return pre + normMsg(errMsg(err))
 }
